@@ -6,6 +6,7 @@ import (
 	"fmt"
 	"go/types"
 	"strings"
+	"sync"
 
 	"golang.org/x/tools/go/ssa"
 )
@@ -370,6 +371,18 @@ func (x *Run) lockOp(fr *Frame, st *State, mu Val, mode int, site ssa.Instructio
 		// re-entrant acquisition of a non-reentrant mutex: self-deadlock
 		x.obligeStatic(st, "lock."+x.fnShort(fr.fn)+".no-self-deadlock", "lock", false, site.Pos(), "mutex acquired while already held on this path")
 	}
+	// lock order: this mutex is taken while the ones in st.held are held
+	thisName := x.mutexName(a)
+	if thisName != "" {
+		for hk, hm := range st.held {
+			if hm != 0 && hk != key {
+				if hn := lockNameOf(x, hk); hn != "" && hn != thisName {
+					recordLockEdge(hn, thisName, x.fnShort(fr.fn), x.posStr(site.Pos()))
+				}
+			}
+		}
+		lockNames.Store(key, thisName)
+	}
 	st.held[key] = mode
 	// the monitor's guarded state: arbitrary on (re-)acquisition, invariant holds
 	owner, mfield := x.mutexOwner(a)
@@ -494,4 +507,125 @@ func (x *Run) checkInvariant(fr *Frame, st *State, inv *ssa.Function, owner *Add
 	args, _, _, _ := x.invArgs(st, inv, owner, false)
 	t := x.evalPure(fr, st, inv, args, nil)
 	x.oblige(st, "inv."+x.fnShort(fr.fn)+"."+inv.Name(), "inv", t, site.Pos(), "monitor invariant at unlock")
+}
+
+// ---- lock order ----
+
+// Edges "mutex B is acquired while mutex A is held", by type and field, collected
+// over every unit of a run (direct Lock calls on explored paths, and calls to
+// functions whose static lock set is non-empty while something is held).
+type lockEdge struct{ From, To, Fn, Pos string }
+
+var (
+	lockNames  sync.Map // lock key -> "Type.field"
+	lockEdgeMu sync.Mutex
+	lockEdges  = map[string]lockEdge{}
+)
+
+func lockNameOf(x *Run, key string) string {
+	if v, ok := lockNames.Load(key); ok {
+		return v.(string)
+	}
+	return ""
+}
+
+func recordLockEdge(from, to, fn, pos string) {
+	lockEdgeMu.Lock()
+	defer lockEdgeMu.Unlock()
+	k := from + " -> " + to
+	if _, ok := lockEdges[k]; !ok {
+		lockEdges[k] = lockEdge{from, to, fn, pos}
+	}
+}
+
+// mutexName: "pkg.Type.field" for a mutex that is a field of a struct object.
+func (x *Run) mutexName(a *Addr) string {
+	if a == nil || a.Kind != AField || len(a.Sel) != 0 {
+		return ""
+	}
+	stt, ok := structOf(a.Ty)
+	if !ok {
+		return ""
+	}
+	return shortTypeName(types.Unalias(a.Ty)) + "." + stt.Field(a.Field).Name()
+}
+
+var staticLockCache sync.Map
+
+// staticLocks: mutexes (by type and field) that fn or its static callees inside
+// frp may acquire.
+func (x *Run) staticLocks(fn *ssa.Function, depth int, seen map[*ssa.Function]bool) map[string]bool {
+	if v, ok := staticLockCache.Load(fn); ok && depth == 0 {
+		return v.(map[string]bool)
+	}
+	out := map[string]bool{}
+	if fn == nil || seen[fn] || depth > 6 || len(fn.Blocks) == 0 {
+		return out
+	}
+	seen[fn] = true
+	for _, b := range fn.Blocks {
+		for _, ins := range b.Instrs {
+			var cc *ssa.CallCommon
+			switch c := ins.(type) {
+			case *ssa.Call:
+				cc = &c.Call
+			case *ssa.Defer:
+				cc = &c.Call
+			}
+			if cc == nil || cc.IsInvoke() {
+				continue
+			}
+			callee := cc.StaticCallee()
+			if callee == nil {
+				continue
+			}
+			switch callee.String() {
+			case "(*sync.Mutex).Lock", "(*sync.RWMutex).Lock", "(*sync.RWMutex).RLock":
+				if len(cc.Args) > 0 {
+					if fa, ok := cc.Args[0].(*ssa.FieldAddr); ok {
+						if pt, ok := fa.X.Type().Underlying().(*types.Pointer); ok {
+							if stt, ok := structOf(pt.Elem()); ok {
+								out[shortTypeName(types.Unalias(pt.Elem()))+"."+stt.Field(fa.Field).Name()] = true
+							}
+						}
+					}
+				}
+				continue
+			}
+			if strings.HasPrefix(pkgPathOf(callee), frpPrefix) && pkgPathOf(callee) != verifPkg {
+				for k := range x.staticLocks(callee, depth+1, seen) {
+					out[k] = true
+				}
+			}
+		}
+	}
+	if depth == 0 {
+		staticLockCache.Store(fn, out)
+	}
+	return out
+}
+
+// noteCallUnderLock: fn is called while locks are held on this path.
+func (x *Run) noteCallUnderLock(fr *Frame, st *State, fn *ssa.Function, site ssa.Instruction) {
+	if len(st.held) == 0 || fn == nil || fr.inPure() || site == nil {
+		return
+	}
+	var heldNames []string
+	for hk, hm := range st.held {
+		if hm != 0 {
+			if hn := lockNameOf(x, hk); hn != "" {
+				heldNames = append(heldNames, hn)
+			}
+		}
+	}
+	if len(heldNames) == 0 {
+		return
+	}
+	for to := range x.staticLocks(fn, 0, map[*ssa.Function]bool{}) {
+		for _, from := range heldNames {
+			if from != to {
+				recordLockEdge(from, to, x.fnShort(fr.fn), x.posStr(site.Pos()))
+			}
+		}
+	}
 }
